@@ -36,7 +36,8 @@ def register3(E):
     @R(r'as ToOwned>::to_owned$')
     def _(e, c, a):
         v = deref(a[0])
-        if isinstance(v, Str): return Vec(list(v.b), 'String')
+        if isinstance(v, Str): return Vec(list(v.b), 'BString' if 'BStr' in c else 'String')
+        if isinstance(v, SliceRef): return Vec([clone_val(x) for x in v.items()], 'BString' if 'BStr' in c else 'Vec')
         return clone_val(v)
 
     # ---- HashMap as association list (keys compared with ==, order nondeterministic)
@@ -149,6 +150,7 @@ def register3(E):
     def bl(x):
         """(list, lo, hi) view of a byte container"""
         x = deref(x)
+        while isinstance(x, Agg) and len(x.f) == 1 and x.ty not in ('arr', 'tup'): x = deref(x.f[0])          # newtypes over Vec/str (BString, RefName, ...)
         if isinstance(x, Str): return x.b, 0, len(x.b)
         if isinstance(x, SliceRef): return x.l, x.lo, x.hi
         if isinstance(x, Vec): return x.l, 0, len(x.l)
@@ -316,6 +318,14 @@ def register3(E):
     def _(e, c, a):
         """default methods of PartialOrd/Ord on a crate type: go through the type's own partial_cmp/cmp (MIR)"""
         x = deref(a[0]); ty = getattr(x, 'ty', None); op = c.rsplit('::', 1)[1]
+        if isinstance(x, (int, bool)) or z3.is_expr(x):              # primitive operands (this handler has priority over the primitive ones)
+            pty = (re.match(r'^<(\w+) ', c) or [None, 'usize'])[1]; y = deref(a[1])
+            lt, gt = prim_lt(pty, x, y), prim_lt(pty, y, x)
+            neg = lambda b: (not b) if isinstance(b, bool) else z3.Not(b)
+            if op in ('max', 'min'):
+                if isinstance(lt, bool): return (y if lt else x) if op == 'max' else (x if lt else y)
+                return z3.If(lt, y, x) if op == 'max' else z3.If(lt, x, y)
+            return {'lt': lt, 'gt': gt, 'le': neg(gt), 'ge': neg(lt)}[op]
         if ty == 'tracing': return False              # tracing is modelled as disabled
         if ty is None: raise EngineError('ordering of ' + repr(x))
         if op in ('max', 'min'):
